@@ -120,7 +120,7 @@ def _burst(rnd):
     del tp, table
     CALLER_TABLE.clear()
     CALLER_TABLE.update(default_codes())
-    gc.collect()               # parsers sit in reference cycles: free them (and their tables) now, the addresses get reused
+    gc.collect(1)              # (young generations only: cheap) parsers sit in reference cycles: free them (and their tables) now, the addresses get reused
     # log records of another dump: the same string NUMBERS mean other strings there
     try:
         from pykdebugparser.os_log_event import OsLogEvent
@@ -150,9 +150,11 @@ def caller_table():
 
 def tick():
     """called from the harness wherever a new case starts (World creation): every EVERY-th call runs a burst"""
+    import time
     _state['n'] += 1
-    if _state['n'] % EVERY == 1:
+    if _state['n'] % EVERY == 1 and time.time() - _state.get('last', 0) > 0.2:      # at most ~5 bursts per second
         burst()
+        _state['last'] = time.time()
 
 
 def stats():
